@@ -132,6 +132,8 @@ _MODPATH = re.compile(r"(?<![A-Za-z0-9_])(?:[a-z_][a-z0-9_]*::)+(?=[A-Z<])")
 def norm_key(k):
     """violation key with module paths dropped in front of type names: price_level::level::PriceLevel::match_order ->
     PriceLevel::match_order"""
+    # `a::b::<impl a::c::T>::m` (a method defined in another module than its type) -> `T::m`
+    k = re.sub(r"(?:[a-z_][a-z0-9_]*::)*<impl (?:[a-z_][a-z0-9_]*::)*([A-Z][A-Za-z0-9_]*)(?:<[^>]*>)?>", r"\1", k)
     return _MODPATH.sub("", k)
 
 
